@@ -125,6 +125,15 @@ def main():
             if c.get("zero"):
                 z = inv.decay(0.0, c["tunit"]).numbers()
                 r["zero_out"] = {k: float(v).hex() for k, v in z.items()}
+                # the flow does not depend on what OTHER inventories were used for before: an unrelated inventory that holds this
+                # chain's stable end members (which `inv` itself does not hold) accumulates its decays, then the same zero-time decay
+                ends = [k for k in num if DS.half_life(k) == math.inf and k not in inv.contents]
+                if ends:
+                    W = cls({**{k: 12345.0 for k in ends}, **{k: 777.0 for k in list(inv.contents)[:1]}}, "num", True, DS)
+                    W.cumulative_decays(t if t > 0 else 1.0, c["tunit"])
+                    z2 = inv.decay(0.0, c["tunit"]).numbers()
+                    r["zero_after_other"] = {k: float(v).hex() for k, v in z2.items()}
+                    r["zero_other"] = {k: 12345.0 for k in ends}
         except Exception as e:
             r["err"] = type(e).__name__ + ": " + str(e)[:100]
         res.append(r)
